@@ -15,6 +15,7 @@ def alphabet():
     ops += [["pop", i] for i in (0, -1, 3)]
     ops += [["getdef", m, src, add] for m in ("Q", "a") for src in ("A", 0) for add in (False, True)]
     ops += [["setattr", k] for k in ("A", "a", "B", "Q")]
+    ops += [["slice", a, b, c] for a, b, c in ((1, None, 1), (None, None, -1), (None, None, 2), (-2, None, 1), (0, 2, 1), (5, 1, -2))]
     return ops
 
 
@@ -86,6 +87,10 @@ def apply_real(sec, op):
             return [it.original_mnemonic, it.mnemonic, str(it.value)]
         elif op[0] == "setattr":
             setattr(sec, op[1], op[2])
+        elif op[0] == "slice":
+            sub = sec[slice(op[1], op[2], op[3])]
+            mine = list(list.__iter__(sec))
+            return [next(j for j, x in enumerate(mine) if x is y) for y in list.__iter__(sub)]
         return "ok"
     except KeyError:
         return "KeyError"
